@@ -186,18 +186,16 @@ def spec(lat_mro, acc, h):
 
 
 def request(mro, acc, h):
-    """the model knows classes only: an instance with n = 1 is presented to it as an instance of a virtual
-    subclass (index c + ncls, MRO = itself + the MRO of c, never registered) which the value-dependent predicate
-    accepts while it rejects the class itself"""
+    """the model's predicates are applied to instance tags: an instance of class c with attribute n is the tag
+    c + ncls * n; the value-dependent predicate (THR = 1) accepts only the tags with n = 1"""
     ncls = len(mro)
-    vmro = list(mro) + [[k + ncls] + list(l) for k, l in enumerate(mro)]
     vacc = [[c for c in l if THR[q] <= 0] + [c + ncls for c in l] for q, l in enumerate(acc)]
-    m = ' '.join('(%d %s)' % (k, ' '.join(str(x) for x in l)) for k, l in enumerate(vmro))
+    m = ' '.join('(%d %s)' % (k, ' '.join(str(x) for x in l)) for k, l in enumerate(mro))
     a = ' '.join('(%d %s)' % (q, ' '.join(str(x) for x in l)) for q, l in enumerate(vacc))
 
     def enc(op):
         if op[0] == 'pr':
-            return ('pr', op[1] + (ncls if len(op) > 3 and op[3] else 0))
+            return ('pr', op[1], op[1] + (ncls if len(op) > 3 and op[3] else 0))
         return op
     ops = ' '.join('(%s)' % ' '.join(str(x) for x in enc(op)) for op in h)
     return '(dispatch (%s) (%s) (%s))' % (m, a, ops)
